@@ -61,4 +61,12 @@ def faithfulOnB (N : Net n) (ens : Space n) (ts : List (Trans n)) : Option Strin
             (ts.any fun t => t.v == v && t.up == up && transEnabledB t s) == ((s[v] == !up) && (N.f v s == up)))
         "enabled transitions differ from the update functions on some state of the subspace" ]
 
+/-- `faithfulOnB` for the transitions of a single variable `v` (used function by function on networks
+    that are too large for whole-state enumeration: the harness sends the sub-network induced by the
+    support of `f_v`) -/
+def faithfulVarB (N : Net n) (ts : List (Trans n)) (v : Fin n) : Option String :=
+  check ((allStates n).all fun s => [false, true].all fun up =>
+      (ts.any fun t => t.v == v && t.up == up && transEnabledB t s) == ((s[v] == !up) && (N.f v s == up)))
+    "enabled transitions of the variable differ from its update function on some state"
+
 end Balm.Impl
